@@ -115,16 +115,17 @@ var failing = []input{
 	{src: `1/0`, skel: "(S e)", fail: "error-division-by-zero"},
 	{src: `[1,2][0:"a"]`, skel: "(S e)", fail: "error-range-index"},
 	{src: `5[1]=2`, skel: "(S e)", fail: "error-index-assignment"},
-	{src: `PI=3`, skel: "(S e)", fail: "error-constant-assignment"},
 	{src: `return 5`, skel: "(S r)", fail: "return-at-toplevel", neutral: true},
 }
 
 // Budget probes, appended to every history: what a failing input may have used up without showing it.
-//   depth:     m nested prefix minus signs cost exactly one depth level each; under MaxDepth 60 the ladder m=54..64
-//              crosses the limit, so a session that starts an input at depth k > 0 panics k steps earlier;
-//   registers: d nested counted loops with fresh variable names, then the innermost variable read after the loops:
-//              'identifier not found' as long as the root environment still has d free registers, a value when the
-//              innermost loop had to fall back to a plain variable.
+//
+//	depth:     m nested prefix minus signs cost exactly one depth level each; under MaxDepth 60 the ladder m=54..64
+//	           crosses the limit, so a session that starts an input at depth k > 0 panics k steps earlier;
+//	registers: d nested counted loops with fresh variable names, then the innermost variable read after the loops:
+//	           'identifier not found' as long as the root environment still has d free registers, a value when the
+//	           innermost loop had to fall back to a plain variable.
+//
 // Which ladder steps fail in a CLEAN session is measured once on a fresh state (calibration), the comparison is
 // always with the history that never saw the failing inputs.
 const probeMaxDepth = 60
@@ -462,6 +463,7 @@ func runC10(c *Ctx) {
 		// the base always ends with inputs that show the accumulated state
 		base = append(base, input{src: `cnt = cnt + 1; println(cnt)`, skel: "(S)"}, input{src: `pr(77)`, skel: "(S (C 1 (S P)))"})
 		noReg := b%5 == 4
+		lastPos := len(base) // failing inputs go anywhere before the budget probes
 		base = append(base, budgetProbes(c, noReg)...)
 		baseObs := runHistory(c, noReg, base)
 		for i, o := range baseObs {
@@ -471,7 +473,7 @@ func runC10(c *Ctx) {
 		}
 		np := len(preludeC10)
 		for _, f := range failing {
-			for p := np; p <= len(base); p++ {
+			for p := np; p <= lastPos; p++ {
 				for m := 1; m <= 3; m++ {
 					h := append([]input{}, base[:p]...)
 					for k := 0; k < m; k++ {
